@@ -728,15 +728,15 @@ func (e *Engine) doReturn(st *State, res Value) {
 		// SSA always emits RunDefers before Return when defers exist; reaching here is fine
 	}
 	st.frames = st.frames[:len(st.frames)-1]
+	if f.onRet != nil {
+		f.onRet(st, res)
+		return
+	}
 	if len(st.frames) == 0 {
 		st.done = true
 		return
 	}
 	caller := st.top()
-	if f.onRet != nil {
-		f.onRet(st, res)
-		return
-	}
 	if caller.unwinding {
 		e.unwind(st)
 		return
